@@ -17,33 +17,46 @@ from vp import replay_C28
 LEVEL = 'other'
 EXPLANATION = ('trie.cpp (whole file) and the de-templated trie.tpp (TM := int) are compiled by CBMC\'s C++ front end '
                'against a non-template sorted-array std::map<char,trieNode> stub.  The harness writes a symbolic '
-               'complete trie over {a,b} (every node: symbolic "present" bit and valueIndex in [-1,15]) straight into '
-               'the map arrays, so every key set of that shape is covered at once, and compares trieNode::get, '
-               'getValueIndex, size, nodeCount, trie::freeze/getLongest/trieGetLongest/get/has/size/defrost/operator= '
-               'with a reference computed by a plain path walk over the abstract state (deepest valued node on the '
-               'path spelled by the query), for every query of bounded length over {a,b,c}; frozen and unfrozen '
-               'answers are also compared with each other.  The history half is covered by an inductive step: from '
-               'EVERY such state satisfying the representation invariant one add or remove of any key is executed on '
-               'the real text and the resulting state is compared with the model (stored keys, their values, dense '
-               'value indices).  The frozen lookup loop is C-extracted and proved memory safe and terminating with '
-               'loop contracts for queries of ANY length over any well-formed frozen array of <= 16 nodes.')
+               'complete trie over {a,b} (every node: "present" bit and symbolic valueIndex in [-1,15]) straight into '
+               'the map arrays, so every key set of that shape - and every trie with the valueless childless nodes '
+               'remove() can leave behind - is covered, and compares trieNode::get, getValueIndex, size, nodeCount, '
+               'trie::freeze/getLongest/trieGetLongest/get/has/size/defrost/clear with a reference computed by a '
+               'plain path walk over the abstract state (deepest valued node on the path spelled by the query), for '
+               'every query of bounded length over {a,b,c}.  Frozen and unfrozen answers equal the same reference on '
+               'the same state, hence each other.  Where the code traverses the whole trie (freeze, size, nodeCount, '
+               'decrementIndex) the shape is enumerated (one branch per shape, values symbolic), because CBMC cannot '
+               'bound loops of C++ functions with parameters individually.  The history half is an inductive step: '
+               'from EVERY such state satisfying the representation invariant one add / remove of any key runs on '
+               'the real text and the post-state, read back through the real map, is compared with the model (stored '
+               'keys, the value of each, dense distinct value indices).  The frozen lookup loop is also C-extracted '
+               'and proved memory safe and terminating with loop contracts for queries of ANY length over any '
+               'well-formed frozen array of <= 16 nodes.')
 TRUSTED = ['cbmc 6.11.0 C and C++ front ends, SAT back end',
            'stubs/c28_trie.h, c28_trie_impl.h: sorted-array stand-in for std::map<char,trieNode> (raw-pointer '
-           'iterators, bump-allocated child arrays, erase by shifting), fixed-capacity std::vector<T>, OCCA_ERROR '
-           'as assert-then-stop',
+           'iterators, loop-free find/erase/operator[] for fan-out <= 4, bump-allocated child arrays), '
+           'fixed-capacity std::vector<T>, OCCA_ERROR as assert-then-stop',
            'de-templating rule TM := int (textual instantiation)',
            'C extraction of the frozen lookup: member arrays become parameters, result_t construction becomes two '
-           'out-parameters']
-ASSUMPTIONS = ['alphabet {a,b} for stored keys, {a,b,c} for queries; key length <= depth bound; query length <= bound '
-               '(C++ groups); frozen array of <= 16 nodes (C group, query length unbounded there)',
-               'queries are NUL-terminated buffers: trieNode::get reads c[length] before testing cIndex < length',
+           'out-parameters',
+           'harness relocate(): the arrays produced by the real freeze() are moved element by element into static '
+           'storage before the lookups run']
+ASSUMPTIONS = ['alphabet {a,b} for stored keys, {a,b,c} for queries; key length <= depth bound (2 quick / 3 thorough '
+               'for lookups, 2 for the history step); query length <= depth + 1 (C++ groups); frozen array of <= 16 '
+               'nodes (C group, query length unbounded there)',
+               'queries are NUL-terminated or prefixes of longer buffers: trieNode::get reads c[length] before '
+               'testing cIndex < length',
                'state invariant assumed for every symbolic state (and proved preserved by add/remove in the step '
                'groups): value indices of stored keys are pairwise distinct and are exactly 0..values.size()-1',
-               'recursion (trieNode::get/size/nodeCount/add/nestedRemove/decrementIndex, trie::freeze) is bounded by '
-               'the trie depth and unwound with unwinding assertions']
+               'recursion and loops over the trie are bounded by the depth / fan-out / query length and unwound with '
+               'unwinding assertions',
+               'history step: autoFreeze off (the autoFreeze paths are op; freeze() and defrost(); op, each covered '
+               'from every state by its own group); trie::remove as a whole only at depth 1 with <= 7 values, its '
+               'node half (nestedRemove + decrementIndex) at depth 2']
 NOT_REACHED = ['trie::print (iostream)', 'std::string overloads of add/remove/getLongest/get/has (one-line forwarders)',
-               'histories are covered as an inductive step over bounded states, not as unrolled sequences; clear() is '
-               'covered on the flattened arrays and the vector, std::map::clear itself is the stub\'s']
+               'trie::operator= / copy constructor (copy loop of nodeCount + 1 iterations in a function whose loops '
+               'cannot be bounded individually)',
+               'histories as unrolled sequences (covered as an inductive step over bounded states instead)',
+               'std::map::clear itself (stub)']
 
 TRIE_HPP = 'src/occa/internal/utils/trie.hpp'
 TRIE_TPP = 'src/occa/internal/utils/trie.tpp'
